@@ -90,7 +90,7 @@ def rust_struct(src, name, rel):
 
 
 def rust_action(src):
-    if rust_repr(src, "enum", "MaybenotAction") != ["C", "u32"]:
+    if sorted(rust_repr(src, "enum", "MaybenotAction")) != ["C", "u32"]:
         raise ExtractError("enum MaybenotAction is no longer #[repr(C, u32)]")
     out = []
     for (n, fields, disc) in enum_variants(src, "MaybenotAction"):
